@@ -75,6 +75,8 @@ func c16Origin(c *Ctx) {
 
 var nyctIDRegex = regexp.MustCompile(`^[0-9]{6}_[0-9A-Za-z]{1,2}..[SN][0-9A-Za-z]*$`)
 
+var c16TrainIDs = []string{"", "0L 1234 8AV/RPY", " 06 0123+ PEL/BBR\t"}
+
 type c16Case struct {
 	kind, assigned, direction, trainID, preVehicle, idKind, tracks, firstTimes, nStops int
 	opts                                                                               nycttrips.ExtensionOpts
@@ -89,7 +91,7 @@ func genC16(c *Ctx) *c16Case {
 	k.kind = c.Free("entity_kind", 2)
 	k.assigned = c.Free("is_assigned", 3)
 	k.direction = c.Free("direction", 5)
-	k.trainID = c.Free("train_id", 2)
+	k.trainID = c.Free("train_id", 3) // absent, a usual one, one with leading and trailing blanks (the id is that text, verbatim)
 	k.preVehicle = c.Free("existing_vehicle_descriptor", 2)
 	k.idKind = c.Free("trip_id_kind", 2)
 	k.opts = nyctOptCombos[c.Free("options", 4)]
@@ -111,8 +113,8 @@ func genC16(c *Ctx) *c16Case {
 	if k.direction > 0 {
 		n.Direction = gtfsrt.NyctTripDescriptor_Direction(k.direction).Enum()
 	}
-	if k.trainID == 1 {
-		n.TrainId = sp("0L 1234 8AV/RPY")
+	if k.trainID >= 1 {
+		n.TrainId = sp(c16TrainIDs[k.trainID])
 	}
 	proto.SetExtension(td, gtfsrt.E_NyctTripDescriptor, n)
 	var pre *gtfsrt.VehicleDescriptor
@@ -135,14 +137,16 @@ func genC16(c *Ctx) *c16Case {
 		return k
 	}
 	k.tracks = c.Free("tracks", 9)
-	k.firstTimes = c.Free("first_stop_times", 11)
+	k.firstTimes = c.Free("first_stop_times", 16)
 	k.nStops = c.Free("stop_time_updates", 3)
 	tu := &gtfsrt.TripUpdate{Trip: td, Vehicle: pre}
-	switch c.Free("trip_update_timestamp", 3) { // the stale rule compares with the FEED timestamp
-	case 1:
-		tu.Timestamp = u64p(k.ts - 1000)
-	case 2:
-		tu.Timestamp = u64p(k.ts + 1000)
+	if k.header == 0 { // (varied only next to a header that carries a timestamp)
+		switch c.Free("trip_update_timestamp", 3) { // the stale rule compares with the FEED timestamp
+		case 1:
+			tu.Timestamp = u64p(k.ts - 1000)
+		case 2:
+			tu.Timestamp = u64p(k.ts + 1000)
+		}
 	}
 	for j := 0; j < k.nStops; j++ {
 		u := &gtfsrt.TripUpdate_StopTimeUpdate{StopId: sp(fmt.Sprintf("L0%dN", j+1))}
@@ -170,6 +174,20 @@ func genC16(c *Ctx) *c16Case {
 			case 9:
 				u.Departure = &gtfsrt.TripUpdate_StopTimeEvent{Delay: cp(new(int32))}
 				u.Arrival = &gtfsrt.TripUpdate_StopTimeEvent{Time: cp2(ts - 1)}
+			case 11: // a negative departure time is a time before 1970: earlier than any feed timestamp
+				u.Departure = &gtfsrt.TripUpdate_StopTimeEvent{Time: cp2(-1)}
+				u.Arrival = &gtfsrt.TripUpdate_StopTimeEvent{Time: cp2(ts + 100)}
+			case 12:
+				u.Arrival = &gtfsrt.TripUpdate_StopTimeEvent{Time: cp2(-3600)}
+			case 13: // a train dwelling at its origin: arrived before the feed was made, leaves after - the departure decides
+				u.Arrival = &gtfsrt.TripUpdate_StopTimeEvent{Time: cp2(ts - 100)}
+				u.Departure = &gtfsrt.TripUpdate_StopTimeEvent{Time: cp2(ts + 100)}
+			case 14:
+				u.Arrival = &gtfsrt.TripUpdate_StopTimeEvent{Time: cp2(ts - 100)}
+				u.Departure = &gtfsrt.TripUpdate_StopTimeEvent{Time: cp2(ts)}
+			case 15: // the departure lies before the arrival, and before the feed
+				u.Arrival = &gtfsrt.TripUpdate_StopTimeEvent{Time: cp2(ts + 100)}
+				u.Departure = &gtfsrt.TripUpdate_StopTimeEvent{Time: cp2(ts - 1)}
 			case 10: // events present, no time anywhere
 				u.Departure = &gtfsrt.TripUpdate_StopTimeEvent{Delay: cp(new(int32))}
 				u.Arrival = &gtfsrt.TripUpdate_StopTimeEvent{Uncertainty: cp(new(int32))}
@@ -239,7 +257,9 @@ func c16Rules(c *Ctx) {
 		switch {
 		case k.nStops == 0, k.firstTimes == 0, k.firstTimes == 10:
 			stale = true // first stop (time) missing
-		case k.header == 0 && (k.firstTimes == 1 || k.firstTimes == 4 || k.firstTimes == 9):
+		case k.firstTimes == 11 || k.firstTimes == 12:
+			stale = true // before 1970: earlier than the feed timestamp, also when the header carries none (0)
+		case k.header == 0 && (k.firstTimes == 1 || k.firstTimes == 4 || k.firstTimes == 9 || k.firstTimes == 15):
 			stale = true // earlier than the feed timestamp
 		}
 	}
@@ -281,8 +301,8 @@ func c16Rules(c *Ctx) {
 	if t.ID.ID != k.msg.Entity[0].GetTripUpdate().GetTrip().GetTripId()+k.msg.Entity[0].GetVehicle().GetTrip().GetTripId() || t.ID.RouteID != "L" {
 		c.Fail("nyct:identifier-changed", "%s: trip id/route changed: %s", k, dumpTripID(t.ID))
 	}
-	if k.assigned == 2 && k.trainID == 1 {
-		if t.Vehicle == nil || t.Vehicle.ID == nil || t.Vehicle.ID.ID != "0L 1234 8AV/RPY" {
+	if k.assigned == 2 && k.trainID >= 1 {
+		if t.Vehicle == nil || t.Vehicle.ID == nil || t.Vehicle.ID.ID != c16TrainIDs[k.trainID] {
 			c.Fail("nyct:assigned-vehicle", "%s: assigned trip must be linked to a vehicle whose id is the train id, got %v", k, dumpVehicleID(t.GetVehicle().ID))
 		} else if t.Vehicle.Trip == nil || dumpTripID(t.Vehicle.Trip.ID) != dumpTripID(t.ID) {
 			c.Fail("nyct:assigned-vehicle-backlink", "%s: the vehicle does not lead back to the trip", k)
@@ -484,7 +504,11 @@ func c16MTrain(c *Ctx) {
 	}
 	tu := &gtfsrt.TripUpdate{Trip: td}
 	var ids []string
-	for j := 0; j < 2; j++ {
+	nStops := 2
+	if route == "M" {
+		nStops = 3 // affected platforms on both sides of one that is not (or has no stop id)
+	}
+	for j := 0; j < nStops; j++ {
 		s := mStopAlphabet[c.Free(fmt.Sprintf("stop[%d]", j), len(mStopAlphabet))]
 		u := &gtfsrt.TripUpdate_StopTimeUpdate{StopSequence: cp(new(uint32)), Arrival: &gtfsrt.TripUpdate_StopTimeEvent{Time: cp2(1700000100 + int64(j))}}
 		if s != "<absent>" {
@@ -502,7 +526,7 @@ func c16MTrain(c *Ctx) {
 		}
 		c.Witness("plain_entity_with_nyct_shaped_trip_id")
 	}
-	if route == "M" && (refSwap(ids[0]) != ids[0] || refSwap(ids[1]) != ids[1]) {
+	if route == "M" && (refSwap(ids[0]) != ids[0] || refSwap(ids[1]) != ids[1] || refSwap(ids[2]) != ids[2]) {
 		c.Witness("m_train_swap_applies")
 	}
 	c16TransparencyCheck(c, m, opts, tzOptions[0], fmt.Sprintf("route=%s trip_id=%s own start=%v stops=%q", route, tripID, ownStart, ids))
